@@ -564,11 +564,15 @@ macro_rules! decode_fields {
 
 impl<'b, C> Decode<'b, C> for core::time::Duration {
     fn decode(d: &mut Decoder<'b>, ctx: &mut C) -> Result<Self, Error> {
+        let p = d.position();
         decode_fields! { d ctx |
             0 secs  => u64 ; "Duration::secs"
             1 nanos => u32 ; "Duration::nanos"
         }
-        Ok(core::time::Duration::new(secs, nanos))
+        // `Duration::new` panics if the carry from `nanos` overflows `secs`.
+        secs.checked_add(u64::from(nanos / 1_000_000_000))
+            .map(|s| core::time::Duration::new(s, nanos % 1_000_000_000))
+            .ok_or_else(|| Error::message("duration value overflows").at(p))
     }
 }
 
